@@ -179,23 +179,20 @@ class Axioms:
         if n == "Hd" and d.arity() == 2:
             a, x = t.arg(0), t.arg(1)
             add(Hd_inv(a, t) == x)
-            add(z3.Length(t) == dlen(a))
             add(ishex(t))
             add(dlen(a) >= 1)
-            if z3.is_string_value(a) and a.as_string() in DLEN:
-                add(dlen(a) == DLEN[a.as_string()])
         elif n == "utf8":
             x = t.arg(0)
             add(utf8_inv(t) == x)
-            add(z3.Length(t) >= z3.Length(x))
             add((t == EMPTY) == (x == EMPTY))
             if z3.is_app(x) and x.decl().kind() == z3.Z3_OP_SEQ_CONCAT:
                 add(t == z3.Concat(*[utf8(c) for c in x.children()]))
+        elif n == "py_lower" and not z3.is_string_value(t.arg(0)):
+            add(z3.Implies(ishex(t.arg(0)), t == t.arg(0)))   # hex digits are lower-case already
+            v = pyeval(t)
         elif n == "ishex":
             x = t.arg(0)
-            add(z3.Implies(t, z3.And(x != EMPTY, z3.Not(hasws(x)),
-                                     z3.Not(z3.Contains(x, z3.StringVal("/"))),
-                                     z3.Not(z3.Contains(x, z3.StringVal("."))))))
+            add(z3.Implies(t, z3.And(x != EMPTY, z3.Not(hasws(x)))))
         elif n == "py_strip":
             x = t.arg(0)
             add((t == EMPTY) == allws(x))
@@ -221,8 +218,6 @@ class Axioms:
             add(is_Absent(z3.Select(fs, mkloc(area, t, EMPTY, z3.IntVal(0)))))
             add(t != EMPTY)
             add(z3.Not(hasws(t)))
-            add(z3.Not(z3.Contains(t, z3.StringVal("."))))
-            add(z3.Not(z3.Contains(t, z3.StringVal("/"))))
         elif n == "dlen":
             add(t >= 1)
         elif n in PYFUN:
@@ -244,11 +239,34 @@ class Axioms:
                 nolemma[g.get_id()] = g
                 add(g == t)
                 self.table()
+        elif d.kind() == z3.Z3_OP_SELECT and t.arg(0).sort() == Lines:
+            self.inst_select(t)
         elif n == "ndigits":
             add(t >= 0)
             x = t.arg(0)
             if z3.is_string_value(x):
                 add(t == sum(1 for c in x.as_string() if c.isdigit()))
+
+    def inst_select(self, t):
+        """Pointwise typing facts of identifier multisets (line files and locked lists):
+        counts are non-negative; every line of a reference file is a whitespace-free identifier."""
+        base, idx = t.arg(0), t.arg(1)
+        for arr, fact in self.__dict__.get("pointwise", []):
+            if base.eq(arr):
+                self.out.append(fact(idx))
+        leaves = []
+        todo = [base]
+        while todo:
+            b = todo.pop()
+            if z3.is_app(b) and b.decl().kind() == z3.Z3_OP_ITE:
+                todo.extend([b.arg(1), b.arg(2)])
+            else:
+                leaves.append(b)
+        if any(z3.is_app(b) and b.decl().kind() == z3.Z3_OP_STORE for b in leaves):
+            return
+        self.out.append(t >= 0)
+        if any(z3.is_app(b) and b.decl().name() in ("lines", "linesOfRaw") for b in leaves):
+            self.out.append(z3.Implies(t > 0, wsfree(idx)))
 
     def table(self):
         """Ground facts: the string functions evaluated on the twelve canonical names."""
